@@ -272,11 +272,14 @@ func appendAnalyticFunctionToListIfNotExist(list1 []parser.AnalyticFunction, lis
 		return m
 	}
 
+	// list2 is appended in its own order: functions are evaluated in the order of the list, and a function that is an
+	// argument of another one has to be evaluated before that one in every run.
 	m1 := createMap(list1)
-	m2 := createMap(list2)
-	for k, v := range m2 {
+	for _, v := range list2 {
+		k := FormatFieldIdentifier(v)
 		if _, ok := m1[k]; !ok {
 			list1 = append(list1, v)
+			m1[k] = v
 		}
 	}
 
